@@ -54,10 +54,10 @@ F_DIV32768 = Fn('div32768', 'uint32_t', [('uint32_t', 'in')], 'div32768',
                 ensures=[('RET = round(in/32768)', '32768 * I64(RET) <= I64(in) + 16384 && I64(in) + 16384 < 32768 * (I64(RET) + 1)')],
                 comment='detail::div32768 (in + 16384 must not wrap)')
 F_MUL_U8 = Fn('mul_u8', 'uint8_t', [('uint8_t', 'a'), ('uint8_t', 'b')], 'mul_u8',
-              ensures=[('a*b/255 within one unit (nearest)', '255 * I64(RET) <= I64(a) * b + 127 && I64(a) * b <= 255 * I64(RET) + 127')],
+              ensures=[('a*b/255 within one unit', '255 * I64(RET) < I64(a) * b + 255 && I64(a) * b < 255 * I64(RET) + 255')],
               comment='channel_multiplier_unsigned<uint8_t>::operator()')
 F_MUL_U16 = Fn('mul_u16', 'uint16_t', [('uint16_t', 'a'), ('uint16_t', 'b')], 'mul_u16',
-               ensures=[('a*b/65535 within one unit (floor)', '65535 * I64(RET) <= I64(a) * b && I64(a) * b < 65535 * (I64(RET) + 1)')],
+               ensures=[('a*b/65535 within one unit', '65535 * I64(RET) < I64(a) * b + 65535 && I64(a) * b < 65535 * (I64(RET) + 1)')],
                comment='channel_multiplier_unsigned<uint16_t>::operator()')
 F_MUL_F32 = Fn('mul_f32', 'float', [('float', 'a'), ('float', 'b')], 'mul_f32',
                requires=['0.0f <= a && a <= 1.0f && 0.0f <= b && b <= 1.0f'],
@@ -71,7 +71,7 @@ F_PACKED_CTOR = Fn('packed_ctor', 'U_T', [('U_T', 'v')], 'packed_ctor',
 F_MUL_GEN = Fn('mul_generic', 'U_T', [('U_T', 'a'), ('U_T', 'b')], 'mul_generic',
                requires=['a <= U_MAXV && b <= U_MAXV'],
                ensures=[('in range', 'RET <= U_MAXV'),
-                        ('never above a*b/max', 'I128(RET) * U_MAXV <= I128(a) * b'),
+                        ('less than one unit above a*b/max', 'I128(RET) * U_MAXV < I128(a) * b + U_MAXV'),
                         ('less than one unit below a*b/max', 'I128(a) * b < (I128(RET) + 1) * U_MAXV')],
                comment='generic channel_multiplier_unsigned<T>::operator(): a / double(max) * b, truncated')
 DIV_C = F_DIV255.text()
@@ -307,6 +307,41 @@ for ch, tier in [('u8', 'quick'), ('u16', 'quick'), ('f32', 'quick'), ('i8', 'qu
                  ('p5', 'quick'), ('p3', 'thorough'), ('p7', 'thorough')]:
     UNITS.append(mul_unit(ch, tier))
 
+
+# generic multiplier instantiated for float64_t (scoped double in [0,1]): a / double(max) * b with max = 1
+X_MUL_GEN_F64 = X('mul_generic', CA, r'auto operator\(\)\(ChannelValue a, ChannelValue b\) const -> ChannelValue\s*\{',
+                  within=r'template <typename ChannelValue>\s*struct channel_multiplier_unsigned\s*\{', count=1,
+                  rules=[('R8.base_t', r'typename base_channel_type<ChannelValue>::type', 'double', False), ('R8.base_alias', r'\bbase_t\b', 'double', False),
+                         ('R8.maxv', r'channel_traits<ChannelValue>::max_value\(\)', '1.0', True),
+                         ('R4.CV_ctor', r'\bChannelValue\(', '(double)(', True), ('R5.round', r'\bstd::round\(', 'round(', False)])
+F64_C = r'''
+double round(double);
+double mul_generic(double a, double b)
+__CPROVER_requires(0.0 <= a && a <= 1.0 && 0.0 <= b && b <= 1.0)
+__CPROVER_assigns()
+__CPROVER_ensures(RET >= a * b - 1e-12 && RET <= a * b + 1e-12)        /* a*b/max (max = 1) within float rounding */
+__CPROVER_ensures(0.0 <= RET && RET <= 1.0)                            /* never outside the channel range */
+@@mul_generic@@
+#ifndef VERIF_NATIVE
+void h_mul_generic(void){ double a, b; mul_generic(a, b); __CPROVER_assert(0, "VACUITY"); }
+#endif
+'''
+REPLAY_F64 = r'''
+#include <boost/gil/channel_algorithm.hpp>
+#include <boost/gil/typedefs.hpp>
+#include <cmath>
+#include "vreplay.hpp"
+using namespace boost::gil;
+int main(int argc, char** argv){ vr::parse(argc, argv);
+  for (int i = 0; i <= 64; i++) for (int j = 0; j <= 64; j++) { double a = i / 64.0, b = j / 64.0; double r = channel_multiply(float64_t(a), float64_t(b));
+    if (std::fabs(r - a * b) > 1e-12) REPRODUCED("channel_multiply(float64_t(%g), float64_t(%g)) = %g, expected %g", a, b, r, a * b);
+    if (channel_multiply(float64_t(a), float64_t(1.0)) != a) REPRODUCED("channel_multiply(float64_t(%g), max) = %g (max is not the identity)", a, (double)channel_multiply(float64_t(a), float64_t(1.0))); }
+  NOT_REPRODUCED("float64_t products match a*b on the 65 x 65 grid"); }
+'''
+
+UNITS.append(Unit('mul.f64', 'C07', F64_C, extracts=[X_MUL_GEN_F64], replay=REPLAY_F64,
+                  checks=[Check('unsigned', 'h_mul_generic', enforce='mul_generic', flags=['--float-overflow-check', '--nan-check', '--cvc5'], timeout=600)],
+                  preconditions=['float64_t arguments in [0, 1]'], assumed=['float64_t is a scoped double with range [0,1] (typedefs.hpp); channel_multiplier<float64_t> forwards to the generic unsigned multiplier (identity shift)']))
 
 REPLAY_INV = r"""
 #include <boost/gil/channel_algorithm.hpp>
